@@ -24,6 +24,7 @@ type Solver struct {
 	stack   [][]*Term   // mirror of assertion stack (for restart)
 	timeout time.Duration
 	lazyFP   bool // float constraints are kept off the incremental solver: feasibility probes over-approximate (ignore them), verdicts are decided one-shot on the full path condition
+	arithMemo map[int]bool
 	feasMode bool // the next one-shot query is a feasibility probe: short time limit, unknown keeps the path
 	logf    *os.File
 
@@ -573,7 +574,34 @@ func termHasFPArith(t *Term, seen map[int]bool) bool {
 	return false
 }
 
+// hasArith memoises termHasFPArith per term (terms are hash-consed and immutable).
+func (s *Solver) hasArith(t *Term) bool {
+	if s.arithMemo == nil {
+		s.arithMemo = map[int]bool{}
+	}
+	if v, ok := s.arithMemo[t.id]; ok {
+		return v
+	}
+	v := termHasFPArith(t, map[int]bool{})
+	s.arithMemo[t.id] = v
+	return v
+}
+
 func (s *Solver) usesFP() bool {
+	if s.kind != "z3" && s.kind != "z3new" {
+		return false
+	}
+	for _, lvl := range s.stack {
+		for _, t := range lvl {
+			if s.hasArith(t) {
+				return true
+			}
+		}
+	}
+	return false
+}
+
+func (s *Solver) usesFPSlow() bool {
 	if s.kind != "z3" && s.kind != "z3new" {
 		return false
 	}
